@@ -8,7 +8,7 @@ from .c04 import rotation_table, S_
 NAMED = ('H', 'S', 'X', 'Y', 'Z', 'CNOT')
 
 
-def make_gates(env, M, N, prog, tag='g'):
+def make_gates(env, M, N, prog, tag='g', np_qubits=False):
     """real gate objects for the program, plus for each gate the reference full-register table (None for bmap gates)
     and the validity assumptions of symbolic map gates"""
     gates, tables, assumptions = [], [], []
@@ -16,6 +16,8 @@ def make_gates(env, M, N, prog, tag='g'):
         qubits = list(qubits)
         n = len(qubits)
         mask = [i in qubits for i in range(N)]
+        if np_qubits:
+            qubits = list(np.array(qubits, dtype=np.int64))        # numpy integers, as diagonalize() passes them
         if kind == 'gen':
             gg = env.bits('%s%d_gen' % (tag, k), (2 * n,))
             pg = env.signs('%s%d_gensign' % (tag, k), (1,))[0]
@@ -83,10 +85,10 @@ def flat_order(circ):
     return [g for layer in circ.layers_forward() for g in getattr(layer, 'gates', [])]
 
 
-def h_program_forward(env, N, prog, config='plain', cls='CliffordCircuit', variant='orig', inp='list', r=0):
+def h_program_forward(env, N, prog, config='plain', cls='CliffordCircuit', variant='orig', inp='list', r=0, np_qubits=False):
     """circuit.forward(x) == the gates applied one at a time in the order they were added (reference semantics)"""
     M = Mods(env)
-    gates, tables, assumptions = make_gates(env, M, N, prog)
+    gates, tables, assumptions = make_gates(env, M, N, prog, np_qubits=np_qubits)
     for a in assumptions:
         env.assume(a, 'symbolic map gates are valid maps')
     L = 1 if inp == 'list' else 2 * N
